@@ -20,7 +20,7 @@ import (
 
 // ---- G cases: Transport.SendSnapshot end to end -----------------------------
 //
-//	<id> G cs=.. did=.. fail=none|conn|chunkK [wb=<pieces>] F0=<path>@<pieces> .. | M <msg>
+//	<id> G cs=.. did=.. fail=none|conn|chunkK|resolve|breaker|jobs [wb=<pieces>] F0=<path>@<pieces> .. | M <msg>
 //
 // A REAL transport.Transport is built on an in-memory file system with a
 // loop-back transport module (config.Expert.TransportFactory): a snapshot
@@ -30,7 +30,8 @@ import (
 // worker (connect, sendChunks, loadChunkData), the status report to the
 // message handler and the release of the snapshot (Unref -> Compact).
 // fail=conn makes GetSnapshotConnection fail, fail=chunkK makes SendChunk fail
-// after K chunks were delivered. wb= is the body (after the 1 KB header) of the
+// after K chunks were delivered; resolve / breaker / jobs make SendSnapshot itself fail
+// at once (target not in the registry, circuit breaker open, job limit reached). wb= is the body (after the 1 KB header) of the
 // witness snapshot file, for cases whose message is a witness snapshot.
 
 type gcase struct {
@@ -231,10 +232,25 @@ func runGlue(c *gcase, out *vh.LineWriter, st *vh.Stats) {
 	}
 	h := &glueHandler{statusC: make(chan struct{}, 8)}
 	reg := hk.NewNodeRegistry()
-	reg.Add(c.msg.ShardID, c.msg.To, "c15-a2")
+	if c.fail != "resolve" { // fail=resolve: the target is not in the registry
+		reg.Add(c.msg.ShardID, c.msg.To, "c15-a2")
+	}
+	if c.fail == "jobs" { // fail=jobs: the limit of concurrent snapshot jobs is reached
+		oldMax := hk.SetMaxSnapshotConnections(0)
+		defer hk.SetMaxSnapshotConnections(oldMax)
+	}
 	tr, err := hk.NewTransport(cfg, h, env, reg, rootDir, glueEvents{}, fs)
 	if err != nil {
 		panic(err)
+	}
+	if c.fail == "breaker" { // fail=breaker: the circuit breaker to the target is open
+		b := tr.GetCircuitBreaker("c15-a2")
+		for i := 0; i < 1000 && b.Ready(); i++ {
+			b.Fail()
+		}
+		if b.Ready() {
+			panic("could not trip the circuit breaker")
+		}
 	}
 	cp := &compactor{c: make(chan struct{}, 8)}
 	m := c.msg
